@@ -117,6 +117,27 @@ impl FixtureDatabase {
                         return true;
                     }
                 }
+                Stmt::TryStar(try_stmt) => {
+                    if self.contains_yield(&try_stmt.body)
+                        || self.contains_yield(&try_stmt.orelse)
+                        || self.contains_yield(&try_stmt.finalbody)
+                        || try_stmt.handlers.iter().any(|handler| {
+                            let rustpython_parser::ast::ExceptHandler::ExceptHandler(h) = handler;
+                            self.contains_yield(&h.body)
+                        })
+                    {
+                        return true;
+                    }
+                }
+                Stmt::Match(match_stmt) => {
+                    if match_stmt
+                        .cases
+                        .iter()
+                        .any(|case| self.contains_yield(&case.body))
+                    {
+                        return true;
+                    }
+                }
                 _ => {}
             }
         }
